@@ -10,7 +10,67 @@ import os
 TESTFILE = os.path.join(os.environ.get("SYMX_REPO", "/repo"), "tests/data/parkes_4bit.sf")
 
 
+def main_values(p):
+    """value pipeline of PFITSFile.read_subint on a copy of the fixture whose DAT_WTS / DAT_SCL / DAT_OFFS columns
+    are rewritten (the shipped file has unit weights, which hides everything that involves them)"""
+    import shutil
+    import tempfile
+    import warnings
+    from astropy.io import fits
+    from sigpyproc.io.pfits import PFITSFile
+    bad = []
+    print("params:", json.dumps(p))
+    with tempfile.TemporaryDirectory() as d:
+        fn = os.path.join(d, "w.sf")
+        shutil.copy(TESTFILE, fn)
+        rng = np.random.default_rng(4)
+        with warnings.catch_warnings():
+            warnings.simplefilter("ignore")
+            with fits.open(fn, mode="update") as hd:
+                t = hd["SUBINT"].data
+                nchan = int(hd["SUBINT"].header["NCHAN"])
+                npol = int(hd["SUBINT"].header["NPOL"])
+                w = rng.choice([0.0, 0.25, 0.5, 1.0], size=t["DAT_WTS"][0].shape).astype(np.float32)
+                sc = rng.uniform(0.5, 2.0, size=t["DAT_SCL"][0].shape).astype(np.float32)
+                of = rng.uniform(1.0, 9.0, size=t["DAT_OFFS"][0].shape).astype(np.float32)
+                for k, v in enumerate(p.get("wts") or []):
+                    if k < nchan:
+                        w[k] = v
+                for k, v in enumerate(p.get("scl") or []):
+                    if k < nchan * npol:
+                        sc[k] = v
+                for k, v in enumerate(p.get("off") or []):
+                    if k < nchan * npol:
+                        of[k] = v
+                t["DAT_WTS"][0], t["DAT_SCL"][0], t["DAT_OFFS"][0] = w, sc, of
+                hd.flush()
+        f = PFITSFile(fn)
+        raw = np.asarray(f.read_subint(0, scloffs=False, weights=False), dtype=np.float64)
+        zero = float(f.sub_hdr.zero_off)
+        W = np.asarray(f.read_weights(0), dtype=np.float64)
+        S = np.asarray(f.read_scales(0), dtype=np.float64)
+        O = np.asarray(f.read_offsets(0), dtype=np.float64)
+        if not (np.allclose(W, w[:nchan]) and np.allclose(S.ravel(), sc[:nchan * npol]) and np.allclose(O.ravel(), of[:nchan * npol])):
+            bad.append("weights / scales / offsets are not the table columns")
+        for scloffs, weights in ((True, True), (True, False), (False, True)):
+            got = np.asarray(f.read_subint(0, scloffs=scloffs, weights=weights), dtype=np.float64)
+            want = raw.copy()
+            if scloffs:
+                want = (want - zero) * S[None, :, :] + O[None, :, :]
+            if weights:
+                want = want * W[None, None, :]
+            if got.shape != want.shape or not np.allclose(got, want, rtol=1e-5, atol=1e-4):
+                i = np.unravel_index(np.argmax(np.abs(got - want)), got.shape) if got.shape == want.shape else None
+                bad.append(f"read_subint(scloffs={scloffs}, weights={weights}) is not ((raw-zero)*scale+offset)*weight"
+                           + (f": sample {i}: {got[i]} vs {want[i]} (weight {W[i[2]]}, scale {S[i[1], i[2]]}, offset {O[i[1], i[2]]})" if i else ""))
+    for b in bad:
+        print("MISMATCH:", b[:400])
+    return 1 if bad else 0
+
+
 def main(p):
+    if p.get("kind") == "values":
+        return main_values(p)
     from sigpyproc.readers import PFITSReader
     f = PFITSReader(TESTFILE)
     nsblk = int(f.sub_hdr.subint_samples)
